@@ -14,6 +14,8 @@ use serde_json::json;
 fn zero_len_dir(ctx: &mut Ctx, case: u64) {
     let mut rng = ctx.rng("c19.dir", case);
     let n = match case % 5 {
+        // beyond what a root directory can hold without a codec (4065+ entries): the directory writers go straight to leaves
+        _ if case % 20 == 8 || case % 20 == 13 => rng.usize(4065, 9000),
         0 => rng.usize(1, 3),
         1 | 2 => rng.usize(3, 60),
         3 => rng.usize(60, 600),
@@ -48,6 +50,22 @@ fn zero_len_dir(ctx: &mut Ctx, case: u64) {
             Ok(Err(_)) => ctx.count("serialiser_rejections_async"),
             Ok(Ok(())) => ctx.violation("Directory::to_async_writer", "accepts-zero-length", "serialiser accepts an entry of length 0", &format!("entry {at} of {n}"), mat.clone()),
             Err(p) => ctx.panic("Directory::to_async_writer", &p, mat.clone()),
+        }
+        // the directory-tree writer (root + leaf directories) uses the same serialiser: it must refuse as well
+        if at % 3 == 0 || n > 4000 {
+            let le = gen::to_lib_entries(&bad);
+            let mut out = std::io::Cursor::new(Vec::new());
+            match guard(|| pmtiles2::util::write_directories(&mut out, &le, comp, None).map(|l| l.len())) {
+                Ok(Err(_)) => ctx.count("tree_writer_rejections"),
+                Ok(Ok(_)) => ctx.violation("util::write_directories", "accepts-zero-length", "directory-tree writer accepts an entry of length 0", &format!("entry {at} of {n} has length 0 but write_directories returned Ok"), mat.clone()),
+                Err(p) => ctx.panic("util::write_directories", &p, mat.clone()),
+            }
+            let mut aout = AInst::new(Vec::new());
+            match guard(|| block_on(pmtiles2::util::write_directories_async(&mut aout, &le, comp, None)).map(|l| l.len())) {
+                Ok(Err(_)) => ctx.count("tree_writer_rejections"),
+                Ok(Ok(_)) => ctx.violation("util::write_directories_async", "accepts-zero-length", "directory-tree writer accepts an entry of length 0", &format!("entry {at} of {n}"), mat.clone()),
+                Err(p) => ctx.panic("util::write_directories_async", &p, mat.clone()),
+            }
         }
         // parser: the independent encoder happily writes the length-0 entry
         let raw = R::codec_compress(codec, &R::dir_encode(&bad), &R::CodecParams::plain()).expect("codec");
